@@ -40,6 +40,7 @@ type Profile struct {
 	Own        []string // violation classes of the property being checked: only these (and a diverged reference) end a run
 	InodeExhaust bool // fill the inode table first (thorough tier of C08/C09)
 	DeleteAll  bool // C05: delete everything at the end; only the root may remain
+	JournalReject bool // now and then a request whose transaction the journal rejects as too large (needs > 521 free blocks)
 	ManyBigFrees bool // C05: more big frees in flight at once than any plausible cap on background threads
 	HighBlocks bool // first push the next-fit block allocator beyond block 32768 (second bitmap block); needs DiskBlocks > 34000
 	DeadOnly   bool // bad handles are dead handles of this session only (other sessions share the server)
@@ -104,7 +105,14 @@ func (s *Sess) viol(class, f string, a ...interface{}) {
 		s.res.Viol = append(s.res.Viol, Violation{Class: class, Msg: fmt.Sprintf(f, a...), Op: s.step})
 	}
 	switch class {
-	case "reply", "dump", "content", "handle", "afterfail", "twin":
+	case "content":
+		// wrong bytes in a READ: the reference still describes names, sizes and
+		// which blocks should exist; the conservation oracles of C05 (fsck,
+		// allocators, delete-everything) do not depend on file contents
+		if s.p.Name != "C05" {
+			s.stop = true
+		}
+	case "reply", "dump", "handle", "afterfail", "twin":
 		s.stop = true // the reference no longer describes the server
 	default:
 		if len(s.p.Own) == 0 || inClasses(s.p.Own, class) {
@@ -859,6 +867,14 @@ func runSeq(p Profile, seed uint64, cas int) *SeqRes {
 			}
 		}
 		if op != nil {
+		} else if p.JournalReject && rng.Intn(10) == 0 {
+			// fails at commit time, after it has edited cached inodes, the
+			// directory and its name cache and allocated ~520 blocks
+			d := s.srv.Root
+			if o := s.pickObj(KDir); o != nil {
+				d = o.FH
+			}
+			op = &Op{K: OpSymlink, H: d, Name: s.name(), Target: longName(520*BlockSize+1+rng.Intn(4000), 'J')}
 		} else if p.Recycle && rng.Intn(45) == 0 && s.bigShrinkStraddle() {
 			continue
 		} else if p.Recycle && rng.Intn(25) == 0 {
